@@ -7,6 +7,8 @@ from framework import coq_bs, coq_z, coq_N, coq_list
 ID = 'C13'
 COQ_IMPORTS = ['C13_Model']
 GENERATORS = ['gen_codes']
+MODELLED_FUNCS = {'sugar/core/cane.py': ['match', 'BioMatch.__init__', 'BioMatch.span'],
+                  'sugar/core/seq.py': ['BioSeq.match', 'BioSeq.matchall', 'BioBasket.match', 'BioBasket.matchall']}
 OPS = {'matchall': 0, 'match': 1, 'b_matchall': 2, 'b_match': 3}
 DEFAULTS = {'rf': 'fwd', 'start': 0, 'gap': '-'}
 CASEKEY = {'rf': 'rf', 'start': 'start', 'gap': '_gap'}
@@ -16,7 +18,11 @@ RULE = ('nucleotide (DNA/RNA/IUPAC) and protein sequences of 0-60 columns (thoro
         'start offsets 0-5 and beyond the end; gap "-" or None; keyword arguments randomly left at their defaults; entry points '
         'BioSeq.match/matchall and BioBasket.match/matchall; thorough adds the exhaustive box of all sequences over {A,T,G,-} up to 5 '
         'columns x 6 patterns x gap settings with rf=both. non-trivial = distinct case with at least one reported match whose marker '
-        '(backward strand, gap inside the match, gapped sequence, start > 0, rf form, entry point) is not the default')
+        '(backward strand, gap inside the match, gapped sequence, start > 0, rf form, entry point) is not the default. '
+        'HISTORIES (400 quick / 4000 thorough): 3-7 steps on 1-3 long-lived BioSeq objects (equal texts, equal ids, equal lengths on purpose): '
+        'calls with varying start/rf/gap, the same call repeated, calls on a fresh object with the same text, in-place edits between '
+        'calls (reverse, rc, data assignment, item assignment, str.replace), mutation of the returned BioMatchList, baskets holding one '
+        'object twice; every call step is compared with the model and the oracle on the current text')
 TRUSTED = ['CPython re (sre) for the codon-alternation patterns of DESIGN 5.5: modelled by a hand-written backtracking matcher '
            '(ordered alternation, greedy "[gap]*", leftmost non-overlapping finditer) and compared on every case',
            'CPython bisect.bisect_left on an ascending list (modelled as the number of leading elements < i)',
@@ -239,6 +245,8 @@ def gen_one(rng, maxlen):
     for k, d in DEFAULTS.items():
         if case[CASEKEY[k]] == d and rng.random() < 0.5:
             case['_omit'].append(k)
+    if rng.random() < 0.06:
+        case['_subseq'] = True          # the pattern is given as a BioSeq
     return case
 
 
@@ -259,6 +267,8 @@ def gen_cases(rng, tier):
         else:
             maxlen = 60
         cases.append(gen_one(rng, maxlen))
+    for _ in range(400 if tier == 'quick' else 4000):
+        cases.append(gen_history(rng))
     if tier == 'thorough':
         pats = ['start', 'ATG', '.TG', 'A.|T', 'AT|A', 'T.G|A']
         for ln in range(0, 6):
@@ -287,6 +297,18 @@ def _kw(case):
     return kw
 
 
+def _eff_sub(case):
+    # a BioSeq passed as the pattern is replaced by its (upper-cased) data, cane.py:209-210
+    return case['sub'].upper() if case.get('_subseq') else case['sub']
+
+
+def _sub_arg(case):
+    if case.get('_subseq'):
+        from sugar import BioSeq
+        return BioSeq(case['sub'])
+    return case['sub']
+
+
 def _obs(m, seq):
     if m is None:
         return None
@@ -295,7 +317,7 @@ def _obs(m, seq):
     return [b, e, m.group(), m.rf]
 
 
-def impl(case):
+def _impl_single(case):
     from sugar import BioSeq, BioBasket
     from sugar.core.cane import BioMatchList
     seqs = [BioSeq(s, id='s%d' % i) for i, s in enumerate(case['seqs'])]
@@ -303,14 +325,14 @@ def impl(case):
     op = case['_op']
     if op in ('matchall', 'match'):
         seq = seqs[0] if seqs else BioSeq('', id='s0')
-        r = getattr(seq, op)(case['sub'], **kw)
+        r = getattr(seq, op)(_sub_arg(case), **kw)
         assert str(seq) == (case['seqs'][0] if seqs else ''), 'receiver changed'
         if op == 'match':
             return _obs(r, seq)
         assert isinstance(r, BioMatchList)
         return [_obs(m, seq) for m in r]
     bb = BioBasket(seqs)
-    r = bb.matchall(case['sub'], **kw) if op == 'b_matchall' else bb.match(case['sub'], **kw)
+    r = bb.matchall(_sub_arg(case), **kw) if op == 'b_matchall' else bb.match(_sub_arg(case), **kw)
     assert isinstance(r, BioMatchList)
     assert [str(s) for s in bb] == case['seqs'], 'receiver changed'
     byid = {s.id: s for s in seqs}
@@ -334,22 +356,221 @@ def _rf_term(rf):
     return '(RList %s)' % coq_list([coq_z(z) for z in rf])
 
 
-def model_term(case):
+def _run_term(case):
     gap = case['_gap']
-    return 'out (run_C13 %s %s %s %s %s %s)' % (
-        coq_N(OPS[case['_op']]), coq_list([coq_bs(s) for s in case['seqs']]), coq_bs(case['sub']), _rf_term(case['rf']),
+    return '(run_C13 %s %s %s %s %s %s)' % (
+        coq_N(OPS[case['_op']]), coq_list([coq_bs(s) for s in case['seqs']]), coq_bs(_eff_sub(case)), _rf_term(case['rf']),
         coq_z(case['start']), 'None' if gap is None else '(Some %s)' % _byte(gap))
+
+
+def model_term(case):
+    if case.get('_op') == 'history':
+        return 'out (hist_join %s)' % coq_list([_run_term(c) for kind, c in hist_walk(case) if kind == 'call'])
+    return 'out ' + _run_term(case)
 
 
 def split_model(case, m):
     return bool(m[0]), m[1]
 
 
+# ----------------------------------------------------------------------------- histories (state independence)
+# A history is a list of steps on a few long-lived BioSeq objects: calls with varying options, repeated calls, calls on fresh
+# objects with the same text/id, in-place edits between calls, mutation of returned lists, baskets holding one object twice.
+# The model is pure: the expected result of every call step is the model applied to the CURRENT text(s).
+def _edit_text(t, st):
+    how = st.get('_how')
+    if how == 'reverse':
+        return t[::-1]
+    if how == 'rc':
+        return revcomp(t)
+    if how == 'data':
+        return st.get('text', '')
+    if how == 'setitem':
+        if not t:
+            return t
+        i = st.get('i', 0) % len(t)
+        return t[:i] + st.get('_ch', 'A') + t[i + 1:]
+    if how == 'replace':
+        return t.replace(st.get('_a', 'A'), st.get('_b', 'C'))
+    return t
+
+
+def hist_walk(case):
+    """Simulate the texts; yield ('call', plain-case-dict) for every call step and ('edit', step) otherwise."""
+    texts = list(case.get('seqs') or [''])
+    n = len(texts)
+    for st in case.get('steps', []):
+        k = st.get('_k')
+        if k == 'edit':
+            o = st.get('o', 0) % n
+            texts[o] = _edit_text(texts[o], st)
+            yield 'edit', st
+        elif k in ('call', 'basket'):
+            if k == 'call':
+                seqs = [texts[st.get('o', 0) % n]]
+                op = st.get('_op', 'matchall')
+                op = op if op in ('matchall', 'match') else 'matchall'
+            else:
+                seqs = [texts[o % n] for o in st.get('os', [0])]
+                op = st.get('_op', 'b_matchall')
+                op = op if op in ('b_matchall', 'b_match') else 'b_matchall'
+            yield 'call', {'_op': op, 'seqs': seqs, 'sub': st.get('sub', 'ATG'), 'rf': st.get('rf', 'fwd'),
+                           '_rfkind': st.get('_rfkind', 'tuple'), 'start': st.get('start', 0), '_gap': st.get('_gap', '-'),
+                           '_omit': st.get('_omit', [])}
+
+
+def _impl_history(case):
+    from sugar import BioSeq, BioBasket
+    texts = list(case.get('seqs') or [''])
+    ids = case.get('_ids') or ['h%d' % i for i in range(len(texts))]
+    n = len(texts)
+    objs = [BioSeq(t, id=ids[i % len(ids)]) for i, t in enumerate(texts)]
+    cur = list(texts)
+    out = []
+    for st in case.get('steps', []):
+        k = st.get('_k')
+        if k == 'edit':
+            o = st.get('o', 0) % n
+            how, seq = st.get('_how'), objs[o]
+            if how == 'reverse':
+                seq.reverse()
+            elif how == 'rc':
+                seq.rc()
+            elif how == 'data':
+                seq.data = st.get('text', '')
+            elif how == 'setitem' and len(seq):
+                seq[st.get('i', 0) % len(seq)] = st.get('_ch', 'A')
+            elif how == 'replace':
+                seq.str.replace(st.get('_a', 'A'), st.get('_b', 'C'))
+            cur[o] = _edit_text(cur[o], st)
+            assert str(seq) == cur[o], 'edit %r gave %r, expected %r' % (how, str(seq), cur[o])
+        elif k == 'call':
+            o = st.get('o', 0) % n
+            seq = BioSeq(cur[o], id=objs[o].id) if st.get('_fresh') else objs[o]
+            c = dict(st, seqs=[cur[o]])
+            kw = _kw({'rf': st.get('rf', 'fwd'), '_rfkind': st.get('_rfkind', 'tuple'), 'start': st.get('start', 0),
+                      '_gap': st.get('_gap', '-'), '_omit': st.get('_omit', [])})
+            op = st.get('_op', 'matchall')
+            op = op if op in ('matchall', 'match') else 'matchall'
+            try:
+                r = getattr(seq, op)(st.get('sub', 'ATG'), **kw)
+                res = _obs(r, seq) if op == 'match' else [_obs(m, seq) for m in r]
+                mut = st.get('_mut')
+                if op == 'matchall' and mut:        # mutate the RESULT; later calls must not see it
+                    if mut == 'clear':
+                        r.clear()
+                    elif mut == 'pop' and len(r):
+                        r.pop(0)
+                    elif mut == 'append':
+                        r.append(None)
+                    elif mut == 'reverse':
+                        r.reverse()
+            except Exception as e:       # noqa
+                res = {'e': type(e).__name__}
+            assert str(seq) == cur[o], 'receiver changed by %s' % op
+            out.append(res)
+        elif k == 'basket':
+            os_ = [o % n for o in st.get('os', [0])]
+            bb = BioBasket([objs[o] for o in os_])
+            kw = _kw({'rf': st.get('rf', 'fwd'), '_rfkind': st.get('_rfkind', 'tuple'), 'start': st.get('start', 0),
+                      '_gap': st.get('_gap', '-'), '_omit': st.get('_omit', [])})
+            op = st.get('_op', 'b_matchall')
+            op = op if op in ('b_matchall', 'b_match') else 'b_matchall'
+            try:
+                r = bb.matchall(st.get('sub', 'ATG'), **kw) if op == 'b_matchall' else bb.match(st.get('sub', 'ATG'), **kw)
+                res = [None if m is None else [m.span()[0], m.span()[1], m.group(), m.rf] for m in r]
+            except Exception as e:       # noqa
+                res = {'e': type(e).__name__}
+            assert [str(x) for x in bb] == [cur[o] for o in os_], 'receiver changed by basket %s' % op
+            out.append(res)
+    return out
+
+
+def impl(case):
+    if case.get('_op') == 'history':
+        return _impl_history(case)
+    return _impl_single(case)
+
+
+def _call_step(rng, o, texts, fresh=False):
+    rf, rfkind = gen_rf(rng)
+    if isinstance(rf, str) and rf not in ('fwd', 'bwd', 'both'):
+        rf = 'both'
+    if rf is None and rng.random() < 0.7:
+        rf, rfkind = 'both', 'str'
+    st = {'_k': 'call', 'o': o, '_op': rng.choice(['matchall', 'matchall', 'match']), 'sub': None, 'rf': rf, '_rfkind': rfkind,
+          'start': rng.choice([0, 0, 1, 2, 3, 4, 5, 6, 7]), '_gap': '-' if rng.random() < 0.85 else None, '_omit': [],
+          '_fresh': fresh, '_mut': rng.choice([None, None, 'clear', 'pop', 'append', 'reverse'])}
+    return st
+
+
+def gen_history(rng):
+    nobj = rng.choice([1, 1, 2, 3])
+    base = gen_seq(rng, 30)
+    while '-' not in base or len(base) < 8:
+        base = gen_seq(rng, 30) + '-' + rng.choice(PLANT) + '-' * rng.choice([0, 1, 2]) + gen_seq(rng, 12)
+    texts = [base]
+    for _ in range(nobj - 1):
+        x = rng.random()
+        if x < 0.4:
+            texts.append(base)                                  # same text, other object
+        elif x < 0.8 and len(base) > 3:                         # same length, gap moved / one residue changed
+            i = rng.randrange(len(base) - 1)
+            t = list(base)
+            t[i], t[i + 1] = t[i + 1], t[i]
+            texts.append(''.join(t))
+        else:
+            texts.append(gen_seq(rng, 30))
+    ids = ['h0' if rng.random() < 0.5 else 'h%d' % i for i in range(nobj)]    # colliding ids
+    rna = any('U' in t for t in texts)
+    subs = [gen_sub(rng, rna, texts) for _ in range(2)] + ['start', 'stop']
+    subs = [x for x in subs if in_pattern_domain(x)] or ['start']
+    steps = []
+    for _ in range(rng.choice([3, 4, 5, 6, 7])):
+        x = rng.random()
+        o = rng.randrange(nobj)
+        if x < 0.6:
+            st = _call_step(rng, o, texts, fresh=rng.random() < 0.2)
+            st['sub'] = rng.choice(subs[:2]) if rng.random() < 0.8 else rng.choice(subs)
+            steps.append(st)
+            if rng.random() < 0.35:                              # the same call again / same call with another start, rf or gap
+                st2 = dict(st)
+                y = rng.random()
+                if y < 0.3:
+                    pass
+                elif y < 0.7:
+                    st2['start'] = rng.choice([0, 1, 2, 3, 4, 5, 6])
+                elif y < 0.85:
+                    st2['rf'], st2['_rfkind'] = rng.choice([('fwd', 'str'), ('bwd', 'str'), ('both', 'str'), (0, 'int'), (-1, 'int')])
+                else:
+                    st2['_gap'] = None if st['_gap'] else '-'
+                st2['o'] = o if rng.random() < 0.7 else rng.randrange(nobj)
+                st2['_fresh'] = rng.random() < 0.2
+                steps.append(st2)
+        elif x < 0.8:
+            how = rng.choice(['reverse', 'rc', 'data', 'setitem', 'replace'])
+            st = {'_k': 'edit', 'o': o, '_how': how}
+            if how == 'data':
+                st['text'] = rng.choice(texts) if rng.random() < 0.5 else gen_seq(rng, 30)
+            elif how == 'setitem':
+                st['i'] = rng.randrange(40)
+                st['_ch'] = rng.choice('ACGT-')
+            elif how == 'replace':
+                st['_a'], st['_b'] = rng.choice([('-', 'A'), ('A', '-'), ('T', 'A'), ('G', 'C')])
+            steps.append(st)
+        else:
+            rf, rfkind = rng.choice([('fwd', 'str'), ('bwd', 'str'), ('both', 'str'), ([0, -1], 'tuple')])
+            steps.append({'_k': 'basket', 'os': [o, rng.randrange(nobj), o][:rng.choice([1, 2, 3])], '_op': rng.choice(['b_matchall', 'b_match']),
+                          'sub': rng.choice(subs), 'rf': rf, '_rfkind': rfkind, 'start': rng.choice([0, 0, 1, 3, 5]),
+                          '_gap': '-' if rng.random() < 0.85 else None, '_omit': []})
+    return {'_op': 'history', 'seqs': texts, '_ids': ids, 'steps': steps}
+
+
 # ----------------------------------------------------------------------------- oracle
-def spec(case, got):
+def _spec_single(case, got):
     if isinstance(got, dict):
         return 'raised %s' % got['e']
-    op, sub, rf, start, gap = case['_op'], case['sub'], case['rf'], case['start'], case['_gap']
+    op, sub, rf, start, gap = case['_op'], _eff_sub(case), case['rf'], case['start'], case['_gap']
     per = [expected_matchall(s, sub, rf, start, gap) for s in case['seqs']]
     if op == 'matchall':
         exp = per[0]
@@ -372,7 +593,7 @@ def _matches(got):
     return [m for m in got if m is not None]
 
 
-def nontrivial(case, got):
+def _nontrivial_single(case, got):
     ms = _matches(got)
     if not ms:
         return None
@@ -395,7 +616,7 @@ def nontrivial(case, got):
     return '|'.join(marks) if marks else None
 
 
-def histkey(case, got):
+def _histkey_single(case, got):
     n = max([len(s) for s in case['seqs']] or [0])
     sub = case['sub']
     kind = sub if sub in ('start', 'stop') else ('outside' if not in_pattern_domain(sub) else
@@ -415,21 +636,100 @@ def histkey(case, got):
     return ks
 
 
-def features(case, got):
+def _features_single(case, got):
     gap = case['_gap']
     return {'_op': case['_op'], 'dot_on_gap': bool(gap and any(m[2][:1] == gap for m in _matches(got))),
             'word_starts_with_dot': any(w[:1] == '.' for w in words_of(case['sub']))}
 
 
-def python_snippet(case):
+def _python_snippet_single(case):
     kw = _kw(case)
-    args = ', '.join([repr(case['sub'])] + ['%s=%r' % kv for kv in kw.items()])
+    args = ', '.join([('BioSeq(%r)' if case.get('_subseq') else '%r') % case['sub']] + ['%s=%r' % kv for kv in kw.items()])
     if case['_op'] in ('matchall', 'match'):
         call = 'BioSeq(%r).%s(%s)' % (case['seqs'][0] if case['seqs'] else '', case['_op'], args)
     else:
         call = 'BioBasket([BioSeq(s) for s in %r]).%s(%s)' % (case['seqs'], case['_op'][2:], args)
     return ('from sugar import BioSeq, BioBasket\nr = %s\nr = r if isinstance(r, list) or hasattr(r, "data") else [r]\n'
             'print([None if m is None else (m.span(), m.group(), m.rf) for m in r])' % call)
+
+
+def _hist_calls(case, got):
+    calls = [c for kind, c in hist_walk(case) if kind == 'call']
+    if not isinstance(got, list) or len(got) != len(calls):
+        return None
+    return list(zip(calls, got))
+
+
+def spec(case, got):
+    if case.get('_op') != 'history':
+        return _spec_single(case, got)
+    if isinstance(got, dict):
+        return 'history raised %s' % got['e']
+    pairs = _hist_calls(case, got)
+    if pairs is None:
+        return 'history returned %r' % (got,)
+    for k, (c, g) in enumerate(pairs):
+        r = _spec_single(c, g)
+        if r:
+            return 'call step %d (%s on %r, sub=%r rf=%r start=%r gap=%r): %s' % (k, c['_op'], c['seqs'], c['sub'], c['rf'], c['start'], c['_gap'], r)
+    return None
+
+
+def nontrivial(case, got):
+    if case.get('_op') != 'history':
+        return _nontrivial_single(case, got)
+    pairs = _hist_calls(case, got) or []
+    marks = sorted(set(filter(None, (_nontrivial_single(c, g) for c, g in pairs))))
+    kinds = sorted(set((st.get('_k') or '') + ':' + (st.get('_how') or st.get('_mut') or ('fresh' if st.get('_fresh') else '')) for st in case.get('steps', [])))
+    return 'history|' + ','.join(kinds) + '|' + ';'.join(marks) if marks else None
+
+
+def histkey(case, got):
+    if case.get('_op') != 'history':
+        return _histkey_single(case, got)
+    ks = ['op=history', 'history_steps=%d' % len(case.get('steps', []))]
+    starts = set()
+    for st in case.get('steps', []):
+        if st.get('_k') == 'edit':
+            ks.append('history_edit=' + str(st.get('_how')))
+        elif st.get('_k') == 'basket':
+            ks.append('history_basket')
+            if len(set(st.get('os', []))) < len(st.get('os', [])):
+                ks.append('history_basket_same_object_twice')
+        else:
+            starts.add((st.get('o'), st.get('start')))
+            if st.get('_fresh'):
+                ks.append('history_fresh_object')
+            if st.get('_mut'):
+                ks.append('history_result_mutated')
+    if len(set(o for o, _ in starts)) < len(starts):
+        ks.append('history_same_object_different_start')
+    return sorted(set(ks))
+
+
+def features(case, got):
+    if case.get('_op') != 'history':
+        return _features_single(case, got)
+    return {'_op': 'history'}
+
+
+def python_snippet(case):
+    if case.get('_op') != 'history':
+        return _python_snippet_single(case)
+    return ('import sys; sys.path.insert(0, "/verif/tools")\nfrom props import c13\ncase = %r\n'
+            'print(c13.impl(case))   # one entry per call/basket step; expected: c13.expected_history(case)\nprint(c13.expected_history(case))' % (case,))
+
+
+def expected_history(case):
+    out = []
+    for kind, c in hist_walk(case):
+        if kind != 'call':
+            continue
+        per = [expected_matchall(s, c['sub'], c['rf'], c['start'], c['_gap']) for s in c['seqs']]
+        op = c['_op']
+        out.append(per[0] if op == 'matchall' else (per[0][0] if per[0] else None) if op == 'match' else
+                   [m for p in per for m in p] if op == 'b_matchall' else [p[0] if p else None for p in per])
+    return out
 
 
 # ----------------------------------------------------------------------------- relational checks without the model
@@ -470,7 +770,7 @@ def extra_checks(rng, tier, cov):
     cov['relational_checks'] = done
 
 
-LEVEL_TEXT = ('Machine-checked Coq theorems (21, all closed under the global context) over an executable model of cane.match / BioMatch.span / '
+LEVEL_TEXT = ('Machine-checked Coq theorems (30, all closed under the global context) over an executable model of cane.match / BioMatch.span / '
               'BioSeq and BioBasket match/matchall: every reported match has its span inside the sequence at a column >= start, its group is '
               'the text of the span (backward: of the span on the reverse complement = reversed per-character complement of the mirrored forward '
               'span), the group is an occurrence of a word of the pattern with gap characters tolerated between letters (degapped group = word '
@@ -478,11 +778,14 @@ LEVEL_TEXT = ('Machine-checked Coq theorems (21, all closed under the global con
               'between the start offset and the match modulo 3 (bisect over gap positions = gap count, proved for all inputs; backward count '
               'also expressed on the forward strand); output is forward matches then backward matches, spans ascending and disjoint, nothing '
               'requested is lost, match() = first element of matchall() or None, baskets concatenate; the hand-written backtracking word matcher '
-              'is proved sound and complete w.r.t. a declarative relation, finditer leftmost-complete, and for plain prefix-free words without proper overlap (start, stop) every occurrence is reported exactly once. The model is tied to sugar and to '
+              'is proved sound and complete w.r.t. a declarative relation, finditer leftmost-complete, and for plain prefix-free words without proper overlap (start, stop) every occurrence is reported exactly once; ordered alternation reports the first word that occurs; no word occurs outside the reported spans; span bounds; the start offset in forward coordinates for backward frames; empty results; rf forms count only through membership; basket wrappers element-wise. The model is tied to sugar and to '
               'CPython re by differential testing on every run plus a first-principles oracle on degapped strands.')
 LEVEL_NOTE = ('Trusted: Coq kernel/vm_compute, tools/gen_data.py (COMPLEMENT tables, via the C05 model), the correspondence harness, CPython re/bisect/'
               'deepcopy. Modelled rather than verified: cane.match, BioMatch.span, BioSeq/BioBasket match(all). Domain: printable-ASCII upper-case '
               'sequences, patterns start/stop/"|"-separated words over ASCII letters and ".", start >= 0, gap in {"-", None}. '
               'The frame theorem is at full strength (no guard) since the dot_on_gap fix 69fc7dc (bisect_left); the former witnesses '
-              'are in corpus/C13/dot_on_gap.json. No axioms.')
+              'are in corpus/C13/dot_on_gap.json. Tested only (differential + first-principles oracle, not proved): equivalence of the hand-written '
+              'matcher with CPython re, a BioSeq given as the pattern (cane.py:209-210, compared through its upper-cased text), independence '
+              'of earlier calls / shared objects / in-place edits (400 histories per quick run; the model is pure). Statement coverage of the '
+              'modelled functions in the quick tier: 81/81, no unreachable lines. No axioms.')
 TECHNIQUE = 'Coq proof over an executable model + differential correspondence with /repo on every run'
